@@ -214,5 +214,23 @@ def view_McStateExtra (v : Val) : Val :=
     ("block_create_stats", viewMaybe view_BlockCreateStats (r.get "block_create_stats")),
     ("global_balance", Tx.view_CurrencyCollection (v.get "global_balance"))]
 
+/-- a dictionary read without a value_deserializer: the keys, each with a raw Slice (declared: presence only) -/
+def viewDictRaw (n : Nat) : Val → Val := viewDict (fun _ => .con "slice" .unit) n
+
+/-- `ShardStateUnsplit` (`shard_state#9023afe2`): `out_msg_queue_info` is kept as the referenced cell, `accounts` is the `(dict, extras)`
+    tuple of ShardAccounts, the fields of the `^[ … ]` group arrive flattened (`libraries`: keys with raw Slices), `custom` is `None` or
+    the McStateExtra -/
+def view_ShardStateUnsplit (v : Val) : Val :=
+  let r := v.get "_ref1"
+  Rd.obj "ShardStateUnsplit" [("global_id", v.get "global_id"), ("shard_id", view_ShardIdent (v.get "shard_id")),
+    ("seq_no", v.get "seq_no"), ("vert_seq_no", v.get "vert_seq_no"), ("gen_utime", v.get "gen_utime"), ("gen_lt", v.get "gen_lt"),
+    ("min_ref_mc_seqno", v.get "min_ref_mc_seqno"), ("out_msg_queue_info", v.get "out_msg_queue_info"),
+    ("before_split", v.get "before_split"), ("accounts", view_ShardAccounts (v.get "accounts")),
+    ("overload_history", r.get "overload_history"), ("underload_history", r.get "underload_history"),
+    ("total_balance", Tx.view_CurrencyCollection (r.get "total_balance")),
+    ("total_validator_fees", Tx.view_CurrencyCollection (r.get "total_validator_fees")),
+    ("libraries", viewDictRaw 256 (r.get "libraries")), ("master_ref", viewMaybe view_BlkMasterInfo (r.get "master_ref")),
+    ("custom", viewMaybe view_McStateExtra (v.get "custom"))]
+
 end Blk
 end TonVerif.Tlb
